@@ -33,6 +33,10 @@ open Glom Glom.C15
     `flatten()`'s spec construction have the shape the model transcribes. -/
 theorem c15_facts_wf : WF genEnv = true ∧ WFSrc genSrc = true := by decide
 
+/-- the environment the correspondence driver evaluates the checker in (the documented
+    behaviour, hard-coded) is well-formed too: every theorem below applies to it -/
+theorem c15_spec_env_wf : WF specEnv = true := by decide
+
 /-- **Fold = functools.reduce.**  `Fold(sub, init, op)` evaluated on any heap `h`
     reached by earlier evaluations: with `items = iterate(glom(target, sub))` and
     `sv0 = init()` as a value, the outcome is `List.foldlM` (= `functools.reduce` in the
